@@ -29,6 +29,17 @@ def workload(g, tier):
                 pass
     from vlib.faults import INJECTORS, POSITIONS
     from checks import c14
+    # otherwise-valid inputs with exactly one documented misuse: where a weakened rule lets an input through, the
+    # expander's unreachable!/unwrap sites become reachable
+    nb = 3 if tier == "quick" else 40
+    bases = [xgen.gen(g, p) for p in ("struct_basic", "struct_basic", "struct_children", "struct_parents", "enum_basic", "enum_prim") for _ in range(nb)]
+    for name, inj in INJECTORS.items():
+        for pos in POSITIONS:
+            for spell in ("bare", "o2o"):
+                for b in bases:
+                    it = b.copy()
+                    if inj(it, g, pos, spell) is not None:
+                        wl.append(("single_fault", it.render()))
     for _ in range(nvalid // 3):
         wl.append(("repeat", g.pick([c14.gen_struct, c14.gen_enum, c14.gen_trait_level])(g)[0].render()))
     return wl
